@@ -376,7 +376,7 @@ fn build(ch: &mut Chooser, cfg: &GCfg) -> Option<Program> {
 		}
 	}
 	let defs: Vec<Def> = b.defs.into_iter().collect::<Option<Vec<_>>>()?;
-	Some(Program { defs, lifetime: false, ns_attr: Vec::new(), raw: Vec::new() })
+	Some(Program { defs, lifetime: false, ns_attr: Vec::new(), raw: Vec::new(), enum_skips: Vec::new() })
 }
 
 pub struct Enumerated {
@@ -445,7 +445,7 @@ fn nm(i: usize) -> Ty {
 	Ty::Named(i)
 }
 fn prog(defs: Vec<Def>) -> Program {
-	Program { defs, lifetime: false, ns_attr: Vec::new(), raw: Vec::new() }
+	Program { defs, lifetime: false, ns_attr: Vec::new(), raw: Vec::new(), enum_skips: Vec::new() }
 }
 
 pub fn sweeps(thorough: bool) -> Vec<(Program, String)> {
@@ -490,8 +490,8 @@ pub fn sweeps(thorough: bool) -> Vec<(Program, String)> {
 		add(prog(vec![Def::Union { variants: vec![pl(ptr(p, nm(1))), pl(ptr(p, i32_()))], unit_at: Some(0) }, s2()]), "pointer payloads in union variants");
 		add(prog(vec![st(vec![pl(ptr(p, ptr(Ptr::Box, nm(1)))), pl(nm(1))]), s2()]), "pointer to pointer, shared record");
 	}
-	add(Program { defs: vec![st(vec![pl(Ty::BStr), FieldTy::BBytes, pl(opt(Ty::BStr)), pl(vec_(Ty::BStr))])], lifetime: true, ns_attr: Vec::new(), raw: Vec::new() }, "borrowed &str / &[u8] fields");
-	add(Program { defs: vec![st(vec![pl(bmap(Ty::BStr)), pl(nm(1))]), s2()], lifetime: true, ns_attr: Vec::new(), raw: Vec::new() }, "borrowed &str in map next to a record");
+	add(Program { defs: vec![st(vec![pl(Ty::BStr), FieldTy::BBytes, pl(opt(Ty::BStr)), pl(vec_(Ty::BStr))])], lifetime: true, ns_attr: Vec::new(), raw: Vec::new(), enum_skips: Vec::new() }, "borrowed &str / &[u8] fields");
+	add(Program { defs: vec![st(vec![pl(bmap(Ty::BStr)), pl(nm(1))]), s2()], lifetime: true, ns_attr: Vec::new(), raw: Vec::new(), enum_skips: Vec::new() }, "borrowed &str in map next to a record");
 
 	// S3: maps
 	for mk in [hmap as fn(Ty) -> Ty, bmap as fn(Ty) -> Ty] {
@@ -805,6 +805,28 @@ pub fn sweeps(thorough: bool) -> Vec<(Program, String)> {
 	// raw field names (the crate's own test covers these: control)
 	add(with_raw(prog(vec![st(vec![pl(i32_()), pl(str_()), FieldTy::Fixed(4), dur()])]), vec![RawName::Field(0, 0, kw("type")), RawName::Field(0, 1, kw("match")), RawName::Field(0, 3, kw("enum"))]), "raw identifier: field names r#type, r#match, and r#enum owning a duration fixed");
 	add(with_raw(prog(vec![st(vec![pl(nm(1)), pl(opt(nm(1)))]), st(vec![pl(i32_()), decf()])]), vec![RawName::Field(1, 0, kw("type")), RawName::Field(1, 1, kw("struct")), RawName::Field(0, 0, kw("fn"))]), "raw identifier: field names in nested records, one owning a decimal fixed");
+
+	// S13: unit-only enums with skipped variants (with a payload of a type that has no schema, or
+	// unit): what remains is still an Avro enum of the remaining symbols
+	for ns in [None, Some("ns1")] {
+		let tag = ns.map_or("no namespace attribute".to_owned(), |n| format!("namespace = \"{n}\""));
+		for (what, symbols, skips) in [
+			("{ A, skipped L(NoSchema) }", 1usize, vec![(1usize, true)]),
+			("{ A, B, skipped L(NoSchema) }", 2, vec![(2, true)]),
+			("{ skipped L(NoSchema), A, B, skipped M(NoSchema) }", 2, vec![(0, true), (2, true)]),
+			("{ A, skipped unit B, C }", 2, vec![(1, false)]),
+			("{ skipped unit, A, skipped L(NoSchema), B, C }", 3, vec![(0, false), (1, true)]),
+		] {
+			let mk = |at: usize, defs: Vec<Def>| {
+				let mut p = prog(defs);
+				p.enum_skips = skips.iter().map(|(k, payload)| (at, *k, *payload)).collect();
+				with_ns(p, at, ns)
+			};
+			add(mk(0, vec![Def::UnitEnum { symbols }]), &format!("skip: unit-only enum {what}, alone, {tag}"));
+			add(mk(1, vec![st(vec![pl(nm(1)), pl(opt(nm(1))), pl(vec_(nm(1)))]), Def::UnitEnum { symbols }]), &format!("skip: unit-only enum {what}, in a field, Option and Vec, {tag}"));
+			add(mk(1, vec![Def::Union { variants: vec![pl(nm(1)), pl(str_())], unit_at: Some(0) }, Def::UnitEnum { symbols }]), &format!("skip: unit-only enum {what}, as union variant, {tag}"));
+		}
+	}
 
 	// S8: recursion
 	let list = |p: Ptr| st(vec![pl(lf(Leaf::I64)), pl(opt(ptr(p, nm(0))))]);
